@@ -24,6 +24,8 @@ func init() {
 			"two fields are treated as the same field only when name, alias, absence of selections, arguments and directives agree, and a selection is removed only on that verdict after its defer information was merged. " +
 			"It does not decide exec(norm(q)) == exec(q), validity preservation or idempotence (value level).",
 		Mutants: []Mutant{
+			{Name: "Int values compare equal regardless of their sign (seeded change C04-21)", File: "v2/pkg/ast/ast_val_int_value.go", Rule: "C03-R8", Key: "copy-equal/IntValue.Negative",
+				Old: "\treturn d.IntValueIsNegative(left) == d.IntValueIsNegative(right) &&\n\t\tbytes.Equal(d.IntValueRaw(left), d.IntValueRaw(right))", New: "\treturn bytes.Equal(d.IntValueRaw(left), d.IntValueRaw(right))"},
 			{Name: "enclosing type resolved in the operation document while inlining a fragment spread", File: "v2/pkg/astnormalization/fragment_spread_inlining.go", Rule: "C03-R7", Key: "fragmentSpreadInlineVisitor.replaceFragmentSpread/Document.NodeNameBytes",
 				Old: "parentTypeName := f.definition.NodeNameBytes(f.EnclosingTypeDefinition)", New: "parentTypeName := f.operation.NodeNameBytes(f.EnclosingTypeDefinition)"},
 			{Name: "skipped list elements do not advance the element counter (the repaired defect F17)", File: "v2/pkg/astnormalization/inject_input_default_values.go", Rule: "C03-R6", Key: "jsonWalker/element-counter-advances",
@@ -65,6 +67,9 @@ func runC03(r *fw.Run) {
 	visitorStateReset(r, "C03-R1", "astnorm", map[string]string{})
 	c03DeepCopies(r)
 	c03ElementIndexCounters(r)
+
+	r.Rule("C03-R8", "for every node type of package ast that has both a Copy and an equality function, the equality reads every field the Copy treats as content of the node (positions are not content; four frozen, reasoned exceptions)")
+	copyEqualAgreement(r, "C03-R8", 12)
 
 	r.Rule("C03-R7", "in every normalization visitor a node is looked up only in the document it came from: a definition node (Walker.EnclosingTypeDefinition, TypeDefinitions, a lookup in the definition) is never handed to a method of the operation document, nor the other way round")
 	documentProvenance(r, "C03-R7", []string{"astnorm"}, 23)
